@@ -156,6 +156,29 @@ CHECKS = {
         ref="DESIGN.md section 5 C19"),
 }
 
+EXTRA = {   # rounds 5-6 (DESIGN.md section 0e)
+    "C01": "Rounds 5-6: every method that takes a writer is judged as a writer (pure, reads no instance dictionary); the element taken from a list field is not swapped before it is written; "
+           "constructor hooks of the wire classes store fields as given (a private copy is allowed); every write_* of the writer classes reaches the buffer; __exit__ hands nothing true back to `with`.",
+    "C02": "Rounds 5-6: every consuming reader method re-binds the view on every returning path (L11); the incomplete-input signal is the class family found from the header routine, not a name.",
+    "C03": "Rounds 5-6: every write_* reaches the buffer on all returning paths (a de-duplicating member writer is reported); __exit__ does not suppress exceptions; elements are written as held.",
+    "C04": "Rounds 5-6: membership in a table's keys is read as a tag test, so a DEFAULT component that is read only for its presence is reported (V3).",
+    "C05": "Rounds 5-6: new raiser classes - an f-string field (str()/repr()) of a package object runs its __str__/__repr__ (generated dataclass reprs recurse through the field types), arithmetic on an "
+           "Optional[int] attribute, a handler reading a local the try body had not bound yet; the escape-set / notification split follows a template-method receive.",
+    "C06": "Rounds 5-6: the wait handlers and the provenance rule use the incomplete-input class family (a renamed class with a deprecated subclass alias is followed).",
+    "C07": "Rounds 5-6: S8 every write_* reaches the buffer; S10 __exit__ not truthy; S11 INTEGER/ENUMERATED contents read as two's complement, reader siblings share as the writer's do; "
+           "L11 consuming methods advance; arithmetic spellings of the bit operations (% // * by powers of two, divmod) are read as mask/shift.",
+    "C10": "Rounds 5-6: E7 the text of every refusal raised in _session.py is total (nothing the formatting runs - including __repr__ of nested values - can raise); __exit__ not truthy.",
+    "C11": "Rounds 5-6: __exit__ of package classes does not suppress exceptions (a failed write inside a with-block is not silently left out).",
+    "C12": "Rounds 5-6: writers are pure over every writer-taking method; __exit__ not truthy.",
+    "C13": "Rounds 5-6: J13 list fields rendered as held; J14 constructor hooks store fields as given; J15 no `<text> or <fallback>` in the parser; J4 also judges hex-escape lookup tables (folded, all 256 spellings).",
+    "C15": "Rounds 5-6: span dimensions propagate through conditional expressions and min/max; F1 also sees unbound locals read in handlers and exceptions raised while another error's text is formatted.",
+    "C16": "Rounds 5-6: H12 constructor hooks store fields as given; H13 a parsed number is not pushed through `<int> or <fallback>`.",
+    "C17": "Rounds 5-6: G10 what from_string returns holds what was parsed (no rewriting constructor hooks); G11 a parsed 0 stays 0.",
+    "C18": "Rounds 5-6: L11 every consuming reader method advances on every returning path (the decode loops rely on skip_value / read_* for progress); generator-driven loops are judged at their expansions.",
+    "C19": "Rounds 5-6: I9 the registered-type lists change only in register_* (or helpers only they hand the list to); I6 decides what the duplicate search yields and whether the test fits (a position tested by truth "
+           "accepts a clash with the first registered type); the one reviewed memo must key by the value it was asked for.",
+}
+
 NOT_APPLICABLE = {
     "C14": "agreement of a hand-written offset-arithmetic parser with the RFC 4515 grammar on every sentence is semantic "
            "equivalence over unbounded strings; no sound static argument in reach decides it (lexical pieces are checked under C13/C15)",
@@ -170,7 +193,9 @@ def main():
     for pid in props:
         if pid not in CHECKS:
             continue
-        c = CHECKS[pid]
+        c = dict(CHECKS[pid])
+        if pid in EXTRA:
+            c["text"] = c["text"] + " " + EXTRA[pid]
         checks.append({
             "property_id": pid,
             "quick_cmd": f"/venv/bin/python sa/run.py {pid} --tier quick",
